@@ -221,6 +221,8 @@ enum ClientAct {
     NonceNotEchoed,
     SecondResponseAfterFailure,
     EmptyResponse,
+    /// a client-final message that is not one: only a proof, only fragments, separators
+    GarbledFinalMessage,
 }
 
 fn wrong_password() -> String {
@@ -261,6 +263,7 @@ pub async fn run_scripted_client() {
             ClientAct::NonceNotEchoed,
             ClientAct::SecondResponseAfterFailure,
             ClientAct::EmptyResponse,
+            ClientAct::GarbledFinalMessage,
         ]
     } else {
         &[
@@ -397,6 +400,7 @@ pub async fn run_scripted_client() {
                     let final_msg = match act {
                         ClientAct::MissingProof => without_proof.clone(),
                         ClientAct::EmptyResponse => String::new(),
+                        ClientAct::GarbledFinalMessage => pick(&["p=AAAA", "p=", "p", ",p=AAAA", "c=biws", "r=", ",,,", "c=biws,p=AAAA", "=", "p=AAAA,c=biws,r=x", "c=,r=,p="]).to_string(),
                         _ => format!("{},p={}", without_proof, b64(&proofs.client_proof)),
                     };
                     let honest = matches!(act, ClientAct::Honest);
